@@ -23,6 +23,8 @@ type toCase struct {
 	Pos       int    `json:"pos"`
 	Allow     bool   `json:"allow_failure"`
 	TimeoutMs int    `json:"timeout_ms"`
+	Variation bool   `json:"in_second_variation,omitempty"` // the task has two variations, only the second one overruns
+	Earlier   bool   `json:"earlier_tolerated_failure,omitempty"` // allow_failure task whose first command exits non-zero before the overrun
 }
 
 func overrunCmd(shape, pidfile string) string {
@@ -65,6 +67,10 @@ func runTimeoutCase(a args, tcx toCase, idx int, confirm bool) (suspect string) 
 	switch tcx.Kind {
 	case "overrun":
 		over := tok("START") + "; " + overrunCmd(tcx.Shape, pidfile) + "; " + tok("SURVIVED")
+		if tcx.Variation {
+			t.Variations = []map[string]string{{"V": "v0"}, {"V": "v1"}}
+			over = "if [ \"$V\" = v1 ]; then " + over + "; else " + tok("quick") + "; fi"
+		}
 		for i := 0; i < tcx.N; i++ {
 			if tcx.Where == "command" && i == tcx.Pos {
 				t.Commands = append(t.Commands, over)
@@ -84,11 +90,32 @@ func runTimeoutCase(a args, tcx toCase, idx int, confirm bool) (suspect string) 
 			}
 			want = append(want, "START")
 		default:
+			if tcx.Variation {
+				// the first variation runs completely, the second one up to the overrunning command
+				for i := 0; i < tcx.N; i++ {
+					if i == tcx.Pos {
+						want = append(want, "quick")
+					} else {
+						want = append(want, fmt.Sprint("c", i))
+					}
+				}
+			}
 			for i := 0; i < tcx.Pos; i++ {
 				want = append(want, fmt.Sprint("c", i))
 			}
 			want = append(want, "START")
 			wantErr = true
+		}
+		if tcx.Earlier && tcx.Where == "command" {
+			// a tolerated failure first: it must not make the later timeout tolerated as well
+			t.AllowFailure = true
+			t.Commands = append([]string{tok("early") + "; exit 3"}, t.Commands...)
+			want = append([]string{"early"}, want...)
+			if tcx.Variation {
+				// "early" runs in both variations
+				idx := 1 + tcx.N
+				want = append(want[:idx], append([]string{"early"}, want[idx:]...)...)
+			}
 		}
 	case "fits":
 		for i := 0; i < tcx.N; i++ {
@@ -203,6 +230,13 @@ func modeTimeout(a args) {
 				}
 				cases = append(cases, toCase{Kind: "overrun", Shape: shape, Where: where, N: rnd.Range(1, 3), Allow: allow, TimeoutMs: tmos[rnd.Intn(len(tmos))]})
 			}
+		}
+	}
+	for _, shape := range []string{"sleep", "busy"} {
+		for n := 1; n <= 2; n++ {
+			cases = append(cases, toCase{Kind: "overrun", Shape: shape, Where: "command", N: n, Pos: n - 1, TimeoutMs: 300, Variation: true},
+				toCase{Kind: "overrun", Shape: shape, Where: "command", N: n, Pos: 0, Allow: true, TimeoutMs: 300, Earlier: true},
+				toCase{Kind: "overrun", Shape: shape, Where: "command", N: n, Pos: n - 1, Allow: true, TimeoutMs: 300, Earlier: true, Variation: true})
 		}
 	}
 	reps := a.n(1, 12)
